@@ -1,4 +1,4 @@
-CONSTANTS N = 1  Calls <- C1  Kinds <- KRR  Steps <- S5_30  MaxSend = 10  Reconn <- RBoth  Overlap = TRUE  KeepAlive = FALSE  PingNeutral = FALSE  Faults = FALSE
+CONSTANTS N = 1  Calls <- C1  Kinds <- KRR  Steps <- S5_30  MaxSend = 10  Reconn <- RBoth  Overlap = TRUE  KeepAlive = FALSE  PingNeutral = FALSE  Faults = FALSE  Reg0 <- AllEps  Answers <- NoAnswers  Stale = FALSE
 SPECIFICATION Spec
 CONSTRAINT SendBound
 INVARIANTS TypeOK RotationIsHealthy ProbeQueueSingle FailuresCounted CallsGoSomewhere
